@@ -903,6 +903,33 @@ scpi_bool_t SCPI_ParamToUInt64(scpi_t * context, scpi_parameter_t * parameter, u
 }
 
 /**
+ * IEEE 488.2 allows white space between the mantissa and the exponent of a decimal
+ * number and after its 'E' ("1.5 E 3"); strtod() and strtof() stop there. Copy the
+ * token without white space, so that the whole number is converted.
+ * @param parameter decimal numeric token, with or without suffix
+ * @param buffer
+ * @param len size of buffer
+ * @return buffer, or the original text if it does not fit
+ */
+static const char * numberWithoutSpaces(const scpi_parameter_t * parameter, char * buffer, size_t len) {
+    int i;
+    size_t n = 0;
+
+    for (i = 0; i < parameter->len; i++) {
+        char c = parameter->ptr[i];
+        if ((c == ' ') || (c == '\t')) {
+            continue;
+        }
+        if (n + 1 >= len) {
+            return parameter->ptr;
+        }
+        buffer[n++] = c;
+    }
+    buffer[n] = '\0';
+    return buffer;
+}
+
+/**
  * Convert parameter to float (32 bit)
  * @param context
  * @param parameter
@@ -912,6 +939,7 @@ scpi_bool_t SCPI_ParamToUInt64(scpi_t * context, scpi_parameter_t * parameter, u
 scpi_bool_t SCPI_ParamToFloat(scpi_t * context, scpi_parameter_t * parameter, float * value) {
     scpi_bool_t result;
     uint32_t valint;
+    char buffer[64];
 
     if (!value) {
         SCPI_ErrorPush(context, SCPI_ERROR_SYSTEM_ERROR);
@@ -927,7 +955,7 @@ scpi_bool_t SCPI_ParamToFloat(scpi_t * context, scpi_parameter_t * parameter, fl
             break;
         case SCPI_TOKEN_DECIMAL_NUMERIC_PROGRAM_DATA:
         case SCPI_TOKEN_DECIMAL_NUMERIC_PROGRAM_DATA_WITH_SUFFIX:
-            result = strToFloat(parameter->ptr, value) > 0 ? TRUE : FALSE;
+            result = strToFloat(numberWithoutSpaces(parameter, buffer, sizeof (buffer)), value) > 0 ? TRUE : FALSE;
             break;
         default:
             result = FALSE;
@@ -945,6 +973,7 @@ scpi_bool_t SCPI_ParamToFloat(scpi_t * context, scpi_parameter_t * parameter, fl
 scpi_bool_t SCPI_ParamToDouble(scpi_t * context, scpi_parameter_t * parameter, double * value) {
     scpi_bool_t result;
     uint64_t valint;
+    char buffer[64];
 
     if (!value) {
         SCPI_ErrorPush(context, SCPI_ERROR_SYSTEM_ERROR);
@@ -960,7 +989,7 @@ scpi_bool_t SCPI_ParamToDouble(scpi_t * context, scpi_parameter_t * parameter, d
             break;
         case SCPI_TOKEN_DECIMAL_NUMERIC_PROGRAM_DATA:
         case SCPI_TOKEN_DECIMAL_NUMERIC_PROGRAM_DATA_WITH_SUFFIX:
-            result = strToDouble(parameter->ptr, value) > 0 ? TRUE : FALSE;
+            result = strToDouble(numberWithoutSpaces(parameter, buffer, sizeof (buffer)), value) > 0 ? TRUE : FALSE;
             break;
         default:
             result = FALSE;
